@@ -305,7 +305,10 @@ def read_parse_instruction(pi, interp):
     if split is None:
         raise TranslateError("parse_instruction: mnemonic split(...)[k] not found")
     appended = []
-    for tested, used in U.keyed_blocks(pi, fenv):
+    def feeds_operands(nodes):      # the block hands the entry to process_operand (not e.g. the comment)
+        return any(U.is_call(x, "process_operand") for n in nodes for x in ast.walk(n))
+
+    for tested, used in U.keyed_blocks(pi, fenv, want=feeds_operands):
         if used != [tested]:
             raise TranslateError("parse_instruction: `if %r in result` appends %r" % (tested, used))
         appended.append(tested)
@@ -382,23 +385,22 @@ def read_memory(pm, interp):
     # <var> = <anything>.get(<const key>, ...)
     gets = {}
     get_list = []
-    for n in ast.walk(pm):
-        if isinstance(n, ast.Assign) and isinstance(n.targets[0], ast.Name):
-            ok, k = _get_key(fenv, n.value)
-            if ok and isinstance(k, str):
-                gets.setdefault(n.targets[0].id, []).append(k)
-                get_list.append([n.lineno, n.targets[0].id, k])
-    # <var> = RegisterOperand(name=<src>[<const>], ...)
     regs = {}
     reg_list = []
-    for n in ast.walk(pm):
-        if isinstance(n, ast.Assign) and isinstance(n.targets[0], ast.Name) and _ctor(fenv, n.value, "RegisterOperand"):
-            for kw in _ctor(fenv, n.value, "RegisterOperand").keywords:
+    for line, _col, target, value in fenv.bindings:
+        ok, k = _get_key(fenv, value)
+        if ok and isinstance(k, str):
+            gets.setdefault(target, []).append(k)
+            get_list.append([line, target, k])
+        # <var> = RegisterOperand(name=<src>[<const>], ...)
+        call = _ctor(fenv, value, "RegisterOperand")
+        if call is not None:
+            for kw in call.keywords:
                 if kw.arg == "name" and isinstance(kw.value, ast.Subscript) and isinstance(kw.value.value, ast.Name):
                     ok, k = fenv.try_const(kw.value.slice)
                     if ok:
-                        regs.setdefault(n.targets[0].id, []).append((kw.value.value.id, k))
-                        reg_list.append([n.lineno, n.targets[0].id, kw.value.value.id, k])
+                        regs.setdefault(target, []).append((kw.value.value.id, k))
+                        reg_list.append([line, target, kw.value.value.id, k])
     # roles: the MemoryOperand keyword a value reaches
     role_get, role_reg = {}, {}     # get variable -> role ; RegisterOperand target -> role
     mem_ctor = []
@@ -421,9 +423,9 @@ def read_memory(pm, interp):
                 raise TranslateError("process_memory_address: one value feeds two MemoryOperand fields")
             mem_ctor.append("%s=%s" % (kw.arg, kw.arg))
     r["mem_ctor"] = sorted(mem_ctor)
-    r["mem_keys"] = [role_get.get(v, v) + "=" + k for _, v, k in sorted(get_list)]
+    r["mem_keys"] = [role_get.get(v, v) + "=" + k for _, v, k in get_list]
     r["reg_ctor"] = ["%s=%s[%s]" % ((role_reg[t] + "Op") if t in role_reg else t, role_get.get(s, s), k)
-                     for _, t, s, k in sorted(reg_list)]
+                     for _, t, s, k in reg_list]
     # scale default
     sv = [kw.value for kw in ctor.keywords if kw.arg == "scale"]
     default = None
